@@ -16,6 +16,7 @@ def run(ctx):
     for cfg in ("CtrCounter_LE_W1.cfg", "CtrCounter_BE_W1.cfg", "CtrCounter_LE_W2.cfg", "CtrCounter_BE_W2.cfg"):
         ctx.mc("CtrCounter", cfg, workers=8)
     ctx.mc("ChaChaStream", "ChaChaStream_sticky.cfg", workers=4)
+    ctx.mc("ChaChaStream", "ChaChaStream_twoword.cfg", workers=4)        # 8-byte nonce: two counter words, the carry is +1 on the whole counter
     # the code as pinned before the fix (counter wraps after the error) must be separated by the same model
     rp = ctx.mc("ChaChaStream", "ChaChaStream_pinned.cfg", workers=4, must_hold=False)
     if not rp.violated:
